@@ -268,7 +268,8 @@ def contracts():
         for hp in (False, True):
             for step in (None, 1):
                 cs.append(TakeSlice(hs, hp, step))
-    return cs
+    from contracts import c07shape
+    return cs + c07shape.contracts()
 
 
 TRUSTED = ['pyvc symbolic executor; _Wrapper(evaluable.Range, length) + start denotes the index array start..start+length-1; numpy.take(array, index, axis) selects those indices',
